@@ -320,6 +320,10 @@ def show_fact(f):
         return "%s %s %s" % (show(f[2]), f[1], show(f[3]))
     if k == "ret":
         return "%s is %s" % (show(f[1]), f[2])
+    if k == "forallalt":
+        return "every elem of %s: %s" % (show(f[1]), " | ".join(sorted("{" + "; ".join(sorted(show_fact(x) for x in alt)) + "}" for alt in f[3])))
+    if k == "exists":
+        return "some elem of %s: %s" % (show(f[1]), " | ".join(sorted("{" + "; ".join(sorted(show_fact(x) for x in alt)) + "}" for alt in f[3])))
     if k == "forall":
         return "forall elem of %s: {%s}" % (show(f[1]), "; ".join(sorted(show_fact(x) for x in f[3])))
     if k == "imp":
